@@ -552,8 +552,8 @@ theorem j_step {mc hs0 : Nat} {L0 W0 : Bytes} (hid : HID mc) {c : Conn} (h : J m
       have h0 : hsCount c.env.tr.events = hs0 + 1 := by omega
       obtain ⟨rp, rq, D, script0, g1, g2, g3, g4, g5, g6, g7⟩ := h3 h0 r hh hp
       rw [C07.handler_step c r hh hp] at hst
-      rcases hhp : handlerPoll (handlerFuel c.env r) r hh c.env with ⟨r1, hh1, e1, hres⟩
-      have hpost := handlerPoll_hi (handlerFuel c.env r) r hh c.env g6 g7
+      rcases hhp : handlerPoll ((handlerFuel c.env r + scriptOf c)) r hh c.env with ⟨r1, hh1, e1, hres⟩
+      have hpost := handlerPoll_hi ((handlerFuel c.env r + scriptOf c)) r hh c.env g6 g7
       rw [hhp] at hst hpost
       cases hres with
       | pending =>
